@@ -264,6 +264,9 @@ func (f *Frame) specCall(st *State, e *ast.CallExpr, kind string) []*Term {
 			return []*Term{Eq(item, App("HB", "HItem", v))}
 		}
 		return []*Term{Eq(item, App("HI", "HItem", v))}
+	case kind == "lastStr":
+		k := f.expr(st, e.Args[0])
+		return []*Term{Select(c.heapGet(st, "G!laststr", ArrSort(SStr, SStr)), k)}
 	case kind == "called" || kind == "lastErr":
 		k := f.expr(st, e.Args[0])
 		if kind == "called" {
@@ -1158,7 +1161,7 @@ func (f *Frame) checkFrame(st *State, entry *State, ct *Contract, ri int, where 
 		if !ok {
 			old = c.heapInit(h)
 		}
-		if same(cur, old) || h == "ALLOC" || strings.HasPrefix(h, "IT!") || strings.HasPrefix(h, "HS!") || strings.HasPrefix(h, "TX!") || h == "G!lastNow" || h == "G!lastRPCErr" || h == "G!rpcFails" || strings.HasPrefix(h, "OUT!") || h == "G!called" || h == "G!lasterr" || strings.HasPrefix(h, "TAR!") || strings.HasPrefix(h, "SC!") {
+		if same(cur, old) || h == "ALLOC" || strings.HasPrefix(h, "IT!") || strings.HasPrefix(h, "HS!") || strings.HasPrefix(h, "TX!") || h == "G!lastNow" || h == "G!lastRPCErr" || h == "G!rpcFails" || strings.HasPrefix(h, "OUT!") || h == "G!called" || h == "G!lasterr" || h == "G!laststr" || strings.HasPrefix(h, "TAR!") || strings.HasPrefix(h, "SC!") {
 			continue
 		}
 		whole := false
